@@ -474,6 +474,11 @@ func (r *Reconciler) selectNodes(logger logr.Logger, daemonset *datadoghqv1alpha
 			// so, we want to reject nodes as soon as the number of selected nodes with that label value exceeds 3 = ceil(5/2)
 			//
 			// An efficient way to compute `ceil(a/b)` with only integer computing is to compute `(a+b-1)/b`.
+			// A node the pod cannot run on is not a candidate: it must not use up the share of its label value.
+			if !scheduler.CheckNodeFitness(logger, newPod, &node) {
+				continue
+			}
+
 			if len(daemonsetSpec.Strategy.Canary.NodeAntiAffinityKeys) != 0 {
 				antiAffinityKeysValue := getAntiAffinityKeysValue(&node, daemonsetSpec)
 				if nb := antiAffinityKeysValues[antiAffinityKeysValue]; nb >= (nbCanaryPod+len(antiAffinityKeysValues)-1)/len(antiAffinityKeysValues) {
@@ -482,9 +487,7 @@ func (r *Reconciler) selectNodes(logger logr.Logger, daemonset *datadoghqv1alpha
 				antiAffinityKeysValues[antiAffinityKeysValue]++
 			}
 
-			if scheduler.CheckNodeFitness(logger, newPod, &node) {
-				currentNodes = append(currentNodes, node.Name)
-			}
+			currentNodes = append(currentNodes, node.Name)
 			// All nodes are found. We can exit now!
 			if len(currentNodes) == nbCanaryPod {
 				logger.V(1).Info("All nodes were found")
